@@ -12,6 +12,8 @@ INITIALLY_MISSED = {  # seeded change -> what the check lacked (strengthening do
  "C16-3": "revision-only bump universes (installed 1 vs available 1-r1 ...) added to C16 (family F9); reference order through verif.ref",
  "C18-3": "hand-built entries without dev/inode (identical metadata, different data) + 'undeclared files never share an inode' / st_nlink oracle added to C18",
  "C21-3": "depth-2 histories on one root (op1, in-place env.d rewrite, op2) added to C21",
+ "C23-4": "real interpolating observers (file_handle_output / formatter_output) and format-special path names ('%', '{', backslash) through the real engine dispatch added to C23",
+ "C25-3": "write histories (same on-disk tree written 2-3 times in one process, every archive judged) added to C25",
  "C03-1": "glob atoms with explicit -r0/-r0N revisions + wider match universe added to C03",
  "C03-2": "multi-flag USE lists with a default on a non-last flag added to C03",
  "C04-2": "atom slot form with sub-slot equal to slot (:0/0) added to C04 quick",
